@@ -98,8 +98,28 @@ def build(ctx, oq, rng, cfg):
         w = oq.quantize_activation(wf, qt["qint8"], sc)
     else:
         w = oq.quantize_weight(wf, qt[wk], 0)
+    # memory layout of the activations: the source that is quantized is contiguous, the operand handed to the kernels is a
+    # view of it (same values for transposed / sliced; stride-0 expansions only in realistic mode, where values are free)
+    xlay = cfg.get("xlay", "contiguous")
+    if brank < 2 and xlay in ("transposed", "expanded_col", "expanded_row"):
+        xlay = "contiguous"
+    if mode == "exact" and xlay.startswith("expanded"):
+        xlay = "transposed"
+    if xlay == "transposed":
+        xsrc, post = xf.transpose(-1, -2).contiguous(), (lambda t: t.transpose(-1, -2))
+    elif xlay == "sliced":
+        big = torch.zeros(tuple(xf.shape[:-1]) + (2 * K,), dtype=wd)
+        big[..., ::2] = xf
+        big[..., 1::2] = xf.flip(-1)
+        xsrc, post = big, (lambda t: t[..., ::2])
+    elif xlay == "expanded_col":
+        xsrc, post = xf[..., :1].contiguous(), (lambda t: t.expand(xshape))
+    elif xlay == "expanded_row":
+        xsrc, post = xf[..., :1, :].contiguous(), (lambda t: t.expand(xshape))
+    else:
+        xsrc, post = xf, (lambda t: t)
     if act == "float":
-        x = xf
+        x = post(xsrc)
     else:
         aq = qt[act]
         if mode == "exact":
@@ -107,8 +127,11 @@ def build(ctx, oq, rng, cfg):
         else:
             qmax = 127.0 if act == "qint8" else float(torch.finfo(aq.dtype).max)
             sat = float(rng.choice([1.0, 1.0, 0.5]))  # sometimes saturating codes
-            sc = (xf.abs().max().to(F64) * sat / qmax).clamp(min=1e-6).to(wd)
-        x = oq.quantize_activation(xf, aq, sc)
+            sc = (xsrc.abs().max().to(F64) * sat / qmax).clamp(min=1e-6).to(wd)
+        x = post(oq.quantize_activation(xsrc, aq, sc))
+    if tuple(x.shape) != tuple(xshape):
+        raise AssertionError(f"harness: layout {xlay} produced shape {tuple(x.shape)} instead of {tuple(xshape)}")
+    cfg["xlay_used"] = xlay
     bias = None
     if has_bias:
         if mode == "exact":
@@ -357,8 +380,6 @@ def run_case(ctx, oq, cfg, qmm, rng):
         for rname, fn in routes:
             if xdat.ndim == 1 and rname != "op:qbytes_mm":
                 continue
-            if cfg["K"] == 1 and xdat.dtype == torch.int8 and rname == "fn:qbytes_int_mm":
-                continue  # platform kernel garbage (F34): covered through the public routes
             out, exc = guarded(rname, fn, xdat, wdat, scales)
             if exc is None:
                 ctx.count("route:" + rname)
@@ -383,7 +404,9 @@ def run(ctx):
             N = int(FEATS[rng.integers(len(FEATS) - 3)])
             cfg = dict(wd=wd, act=ACTS[int(rng.integers(4))], wk=wk, rows=int(ROWS[rng.integers(len(ROWS))]), K=K, N=N,
                        brank=int(rng.choice([1, 2, 2, 2, 3, 3, 4])), bias=bool(rng.random() < 0.5),
-                       mode="exact" if rng.random() < 0.45 else "realistic")
+                       mode="exact" if rng.random() < 0.45 else "realistic",
+                       xlay=["contiguous", "contiguous", "contiguous", "transposed", "transposed", "sliced", "expanded_col",
+                             "expanded_row"][int(rng.integers(8))])
             if wk.endswith("_g"):
                 divs = [d for d in (2, 4, 8, 16, 32, 64, 128) if K % d == 0 and d <= K]
                 if not divs:
